@@ -28,7 +28,8 @@ from .c19_lib import value_class
 from .c19_run import Runner
 from .c19_run import unit
 
-VALUES = [False, True, 0, 1, 2, "", "a", "b", "B", 1.5, 0.0, "0", 10**20, -3, "kitchen", "false", 1.0]
+VALUES = [False, True, 0, 1, 2, "", "a", "b", "B", 1.5, 0.0, "0", 10**20, -3, "kitchen", "false", 1.0,
+          "Straße", "STRASSE", "strasse", "é", "e\u0301", "ς", "σ", "ﬁ", "fi"]
 
 
 def gen_select(rng: random.Random, i: int) -> dict[str, Any]:
